@@ -528,16 +528,99 @@ def _zone_item_body(item, acc):
     if isinstance(zid, (tuple, list)):
         # a work item of synthetic zones: each is examined like a tzdb zone, over the whole timeline
         for spec in zid:
-            _examine(acc, _Z(acc, syn_class(spec), syn_desc(spec), spec), spec, windows)
+            if spec[0] == "syn":
+                _examine(acc, _Z(acc, syn_class(spec), syn_desc(spec), spec), spec, windows)
+            else:
+                _examine_user(acc, spec)
         return acc
     return _examine(acc, _Z(acc, zid), zid, windows)
 
 
-def _examine(acc, zc, zone_ref, windows):
+def check_points_vs_reference(acc, zc, z, idx, lo, hi):
+    """get_zone_interval / get_utc_offset at every transition edge -1h, -1ns, 0, +1ns, +1h and at the probe points of every interval,
+    against the reference list"""
+    L = idx.tuples
+    pts = set()
+    for t in L:
+        for q in zw.probe_points(t):
+            pts.add(q)
+        if t[0] is not None:
+            for d in (-H, -1, 0, 1, H):
+                pts.add(t[0] + d)
+    for q in sorted(pts):
+        if not (lo <= q <= hi and MIN_NS <= q <= MAX_NS) or not idx.covers(q, q):
+            continue
+        want = L[idx.at(q)]
+        inst = zw.mk_instant(q)
+        acc.count(evaluations=2, transitions=2)
+        try:
+            got = zw.iv_tuple(z.get_zone_interval(inst))
+            off = z.get_utc_offset(inst).seconds
+        except Exception as ex:  # noqa: BLE001
+            acc.lib_exception("C05/interval-chain/%s" % zc.zid, ex, {"zone": zc.zid, "instant_ns": q, "synthetic": zc.spec and list(zc.spec)})
+            return
+        if got != want or off != want[3]:
+            zc.v("interval-chain", lambda: "get_zone_interval(%s) = %s (get_utc_offset %+ds); the zone was built with %s there" % (
+                zw.fmt_ns(q), zw.fmt_iv(got), off, zw.fmt_iv(want)), instant_ns=q)
+            return
+
+
+def _sweep(acc, zc, z, L, idx, lo, hi, lite, cals):
+    """the complete law set over one interval list; returns the number of transitions examined"""
+    n = 0
+    for k in range(len(L)):
+        t = L[k]
+        if not lite or k % 8 == 0:
+            check_round_trip(acc, zc, z, t, k, () if lite else cals)
+        if k == 0 or t[0] is None or not (lo <= t[0] <= hi):
+            continue
+        p = L[k - 1]
+        if t[0] != p[1]:
+            continue        # broken chain: C04's finding, not ours
+        n += 1
+        T, o1, o2 = t[0], p[3], t[3]
+        acc.outcome("transition:" + ("gap" if o2 > o1 else "overlap" if o2 < o1 else "no-offset-change") + (":%dh+" % (abs(o2 - o1) // 3600) if abs(o2 - o1) >= 7200 else ""))
+        for (v, core) in locals_around(T, o1, o2, lite):
+            check_local(acc, zc, z, idx, v, full=bool(core) and not lite, cals=cals if core and not lite else (), zdt_offsets=core == 2, lite=lite)
+        if not lite:
+            day0 = T // DAY_NS
+            dloc = (T + o2 * NS) // DAY_NS
+            for d in range(day0 - 1, day0 + 3):
+                check_start_of_day(acc, zc, z, idx, d, cals if d == dloc else ())
+    if lo == MIN_NS:
+        idx_all = idx
+        for v in (zw.LOCAL_MIN_NS, zw.LOCAL_MIN_NS + 1, zw.LOCAL_MIN_NS + 18 * H, zw.LOCAL_MIN_NS + 18 * H + 1):
+            check_local(acc, zc, z, idx_all, v, full=True, cals=())
+        check_start_of_day(acc, zc, z, idx, zw.LOCAL_MIN_NS // DAY_NS + 1)
+    if hi == MAX_NS:
+        for v in (zw.LOCAL_MAX_NS, zw.LOCAL_MAX_NS - 1, zw.LOCAL_MAX_NS - 18 * H, zw.LOCAL_MAX_NS - 18 * H - 1):
+            check_local(acc, zc, z, idx, v, full=True, cals=())
+        check_start_of_day(acc, zc, z, idx, zw.LOCAL_MAX_NS // DAY_NS - 1)
+        check_start_of_day(acc, zc, z, idx, zw.LOCAL_MAX_NS // DAY_NS)
+    return n
+
+
+def _examine_user(acc, spec):
+    """a user zone with a known reference, uncached and inside the caching wrapper: the reference list (not the zone's own walk) is the oracle,
+    so the wrapper is checked differentially against the zone it wraps"""
+    raw, cached, problems = zw.build_user_zone(spec)
+    for pr in problems:
+        acc.degrade("user zones: " + pr)
+    ref = zw.user_zone_ref(spec)
+    label = zw.user_zone_label(spec)
+    for z, how in ((raw, "uncached"), (cached, "cached")):
+        if z is None:
+            continue
+        zc = _Z(acc, "%s:%s" % (label, how), None, tuple(spec) + (how,))
+        acc.outcome("user-zone:%s:%s" % ("interval-list" if spec[0] == "packed" else "stored-periods+rules", how))
+        _examine(acc, zc, z, [(lo, hi, False) for lo, hi in zw.user_zone_windows(spec)], refzone=ref)
+
+
+def _examine(acc, zc, zone_ref, windows, refzone=None):
     zid = zc.zid
     cals = _cals()
     try:
-        z = make_synthetic(zone_ref) if zc.spec is not None else zw.provider("bundled")[zid]
+        z = zone_ref if refzone is not None else make_synthetic(zone_ref) if zc.spec is not None else zw.provider("bundled")[zid]
     except ImportError:
         acc.degrade("pyoda_time.testing.time_zones.SingleTransitionDateTimeZone not importable: single-transition user zones skipped")
         return acc
@@ -546,6 +629,13 @@ def _examine(acc, zc, zone_ref, windows):
         return acc
     ntr = 0
     for (lo, hi, lite) in windows:
+        if refzone is not None:
+            # oracle list from the reference description; the zone itself is only cross-examined against it
+            L = tzrules.expected_intervals(refzone, lo, hi)
+            idx = zw.Index(L)
+            check_points_vs_reference(acc, zc, z, idx, lo, hi)
+            ntr += _sweep(acc, zc, z, L, idx, lo, hi, lite, cals)
+            continue
         w = zw.walk(z, lo, hi)
         if w.error:
             if w.error[0] == "exception" and exc_origin(w.error[2]) == "harness":
@@ -564,35 +654,7 @@ def _examine(acc, zc, zone_ref, windows):
                 continue
             acc.outcome(zid)
         idx = zw.Index(L)
-        for k in range(len(L)):
-            t = L[k]
-            if not lite or k % 8 == 0:
-                check_round_trip(acc, zc, z, t, k, () if lite else cals)
-            if k == 0 or t[0] is None or not (lo <= t[0] <= hi):
-                continue
-            p = L[k - 1]
-            if t[0] != p[1]:
-                continue        # broken chain: C04's finding, not ours
-            ntr += 1
-            T, o1, o2 = t[0], p[3], t[3]
-            acc.outcome("transition:" + ("gap" if o2 > o1 else "overlap" if o2 < o1 else "no-offset-change") + (":%dh+" % (abs(o2 - o1) // 3600) if abs(o2 - o1) >= 7200 else ""))
-            for (v, core) in locals_around(T, o1, o2, lite):
-                check_local(acc, zc, z, idx, v, full=bool(core) and not lite, cals=cals if core and not lite else (), zdt_offsets=core == 2, lite=lite)
-            if not lite:
-                day0 = T // DAY_NS
-                dloc = (T + o2 * NS) // DAY_NS
-                for d in range(day0 - 1, day0 + 3):
-                    check_start_of_day(acc, zc, z, idx, d, cals if d == dloc else ())
-        if lo == MIN_NS:
-            idx_all = idx
-            for v in (zw.LOCAL_MIN_NS, zw.LOCAL_MIN_NS + 1, zw.LOCAL_MIN_NS + 18 * H, zw.LOCAL_MIN_NS + 18 * H + 1):
-                check_local(acc, zc, z, idx_all, v, full=True, cals=())
-            check_start_of_day(acc, zc, z, idx, zw.LOCAL_MIN_NS // DAY_NS + 1)
-        if hi == MAX_NS:
-            for v in (zw.LOCAL_MAX_NS, zw.LOCAL_MAX_NS - 1, zw.LOCAL_MAX_NS - 18 * H, zw.LOCAL_MAX_NS - 18 * H - 1):
-                check_local(acc, zc, z, idx, v, full=True, cals=())
-            check_start_of_day(acc, zc, z, idx, zw.LOCAL_MAX_NS // DAY_NS - 1)
-            check_start_of_day(acc, zc, z, idx, zw.LOCAL_MAX_NS // DAY_NS)
+        ntr += _sweep(acc, zc, z, L, idx, lo, hi, lite, cals)
     acc.count(nontrivial=ntr)
     if zid in ("Pacific/Apia", "Australia/Lord_Howe", "America/St_Johns", "Pacific/Kwajalein") and windows[0][0] == MIN_NS:
         acc.sample({"zone": zid, "transitions_examined": ntr, "windows": [(zw.fmt_ns(a), zw.fmt_ns(b), "reduced local set" if c else "full local set") for a, b, c in windows]})
@@ -642,7 +704,11 @@ def build_items(tier, seed):
     specs = synthetic_specs()
     n = 48
     syn = [(tuple(specs[i::n]), [(MIN_NS, MAX_NS, False)]) for i in range(n)]
-    return syn + items
+    # user zones with a reference description (packed transitions in one cache period; stored periods + rules with a clamped join),
+    # each uncached and inside the caching wrapper
+    us = zw.user_zone_specs()
+    usr = [(tuple(us[i::12]), [(MIN_NS, MAX_NS, False)]) for i in range(12)]
+    return syn + usr + items
 
 
 def run(ctx):
@@ -651,7 +717,11 @@ def run(ctx):
                 "transition +-{1h,1s,1ns,0}, the middle of the gap/overlap, local midnights of the four surrounding days +-1ns), plus start-of-day for the "
                 "four surrounding dates, ZonedDateTime(local, zone, offset) for the neighbouring offsets, three non-ISO calendars for the core values, and "
                 "render-and-map-back of four probe instants per interval")
-    ctx.assumptions = ["user-defined zones: %d single-transition zones (pyoda_time.testing SingleTransitionDateTimeZone) and %d two-transition zones (a DateTimeZone "
+    ctx.assumptions = ["user zones with a reference description (vf/models/zonewalk.user_zone_specs): interval-list zones with 1..6 toggling transitions %s days apart "
+                       "inside one 32-day cache period or straddling its boundary, and stored-periods+yearly-rules zones (library _PrecalculatedDateTimeZone) whose "
+                       "first rule interval at the join starts before the join; each examined uncached and inside _CachedDateTimeZone._for_zone with the full law "
+                       "set, get_zone_interval/get_utc_offset at every edge -1h/-1ns/0/+1ns/+1h and probe point - oracle = tzrules over the description" % (list(zw.PACK_SPACING_DAYS),),
+                       "user-defined zones: %d single-transition zones (pyoda_time.testing SingleTransitionDateTimeZone) and %d two-transition zones (a DateTimeZone "
                        "subclass built through the public constructors) over offsets before/after in %s s x local time of day of the change in %s s, examined with the "
                        "same law set over the whole timeline after the C04 chain laws have been confirmed on them" % (
                            sum(1 for x in synthetic_specs() if not x[4]), sum(1 for x in synthetic_specs() if x[4]), list(SYN_OFFSETS), list(SYN_TODS)),
@@ -672,6 +742,7 @@ def run(ctx):
     ctx.note("work_items", len(items))
     ctx.note("tzdb_zone_ids", len({it[0] for it in items if isinstance(it[0], str)}))
     ctx.note("synthetic_user_zones", len(synthetic_specs()))
+    ctx.note("user_zones_with_reference", len(zw.user_zone_specs()))
     if tier == "quick":
         ctx.cap("quick tier: recurring tails examined for %d years after their start + 6 seed-positioned years + 9997-9999; aliases not examined" % QUICK_TAIL_YEARS)
     else:
@@ -687,6 +758,11 @@ def replay(rec):
     if zid is None:
         return False
     acc = Acc()
+    if case.get("synthetic") and case["synthetic"][0] in ("packed", "precalc"):
+        _examine_user(acc, tuple(case["synthetic"][:-1]))
+        for k, v in acc.violations.items():
+            print(k, v[0])
+        return bool(acc.violations)
     if case.get("synthetic"):
         spec = tuple(case["synthetic"])
         zc = _Z(acc, syn_class(spec), syn_desc(spec), spec)
